@@ -68,6 +68,7 @@ INVARIANT InvDet
 INVARIANT InvOrthochronous
 INVARIANT InvTransport
 INVARIANT InvMass
+INVARIANT InvInverse
 PROPERTY LawRest
 PROPERTY LawInverse
 PROPERTY LawParity
@@ -76,6 +77,7 @@ PROPERTY LawZAgree
 PROPERTY LawRotCompose
 CHECK_DEADLOCK FALSE
 """
+GAMMA_MAX = 8      # numeric closeness (1e-12) is claimed for factors with entries <= GAMMA_MAX only
 MC_ACTIONS = ["ApplyBoostZ", "ApplyRotY", "ApplyRotZ", "ApplyBoost", "ToRest", "Negate"]
 
 TRACE_CFG = """SPECIFICATION TraceSpec
@@ -95,19 +97,30 @@ CHECK_DEADLOCK FALSE
 
 LAW_CLAUSES = {
     "EtaOrthogonal", "DetOne", "Orthochronous", "RestFrame", "BoostInverse", "NegKeepsEnergy", "ZAgree", "RotCompose",
-    "EvaluateAgreesWithExplicit", "NumericCodeRuns", "NumericFinite", "NumericAgrees", "NumericAgreesPy", "SampledLaws",
+    "NumericCodeRuns", "NumericFinite", "NumericAgrees", "NumericAgreesPy", "SampledLaws",
+    "ExplicitLawsNumerically",
 }
 CHAIN_CLAUSES = {"ChainMatchesReference", "Transport"}
 
 
-def model_check(lat: str, depth: int, workers: int, dev: str = "{}"):
-    return tlc.run("Lorentz_MC", MC_CFG.format(lat=lat, depth=depth, dev=dev), workers=workers, coverage=True,
-                   fast_start=False, timeout=2400)
+def model_check(lat: str, depth: int, workers: int, dev: str = "{}", invariants: bool = True):
+    cfg = MC_CFG.format(lat=lat, depth=depth, dev=dev)
+    if not invariants:      # laws (action properties) only: shows that they are sensitive on their own
+        cfg = "\n".join(ln for ln in cfg.splitlines() if not ln.startswith("INVARIANT")) + "\n"
+    return tlc.run("Lorentz_MC", cfg, workers=workers, coverage=True, fast_start=False, timeout=2400)
 
 
 # ----------------------------------------------------------------------------------------------
 # record generation
 # ----------------------------------------------------------------------------------------------
+def _exc_text(e: BaseException) -> str:
+    """Exception text for a record.  TLC echoes it in the REJECT line, and the TLC runner treats
+    any output containing 'Error:' / 'Exception' as a tool failure, hence the abbreviation."""
+    import re
+
+    return re.sub(r"Error|Exception", lambda m: m.group(0)[:3] + ".", f"{type(e).__name__} {str(e)[:80]}").replace('"', "'").replace("\\", "/")
+
+
 class Recorder:
     def __init__(self):
         self.records: list[dict] = []
@@ -136,12 +149,13 @@ def _scaled(q, s=1):
 class Gen:
     """Drives the implementation and builds the records."""
 
-    def __init__(self, chk, rec: Recorder, only_key: str | None = None):
+    def __init__(self, chk, rec: Recorder, only_key: str | None = None, seed: int | None = None, tier: str | None = None):
         self.chk, self.rec, self.only = chk, rec, only_key
+        self.seed = chk.seed if seed is None else seed
+        self.tier = tier or chk.tier
         self.I = lx.Impl()
         lz = self.I.lz
         I = self.I
-        self.rng = random.Random(chk.seed * 7919 + 8)
         self.e_boost = lz.BoostMatrix(I.p)
         self.e_boost_neg = lz.BoostMatrix(lz.NegativeMomentum(I.p))
         self.e_neg = lz.NegativeMomentum(I.p)
@@ -150,7 +164,11 @@ class Gen:
         self.e_rz = lz.RotationZMatrix(I.a1, n_events=lz.ArraySize(I.a1))
         self.e_eta = lz.MinkowskiMetric(I.p)
         self._memo: dict = {}
-        quick = chk.tier == "quick"
+        self.skipped_ill = 0
+        self.skipped_rest = 0
+        self.truncated_chains = 0
+        self.worst_ratio = 0.0
+        quick = self.tier == "quick"
         self.betas = lx.beta_lattice(65)
         self.angles = lx.angle_lattice(65)
         base = lx.momentum_lattice(30, 40)
@@ -164,6 +182,39 @@ class Gen:
 
     def want(self, key: str) -> bool:
         return self.only is None or key == self.only
+
+    def rng_for(self, tag: str) -> random.Random:
+        """One generator per family and case, so that a replay of one case draws the same parameters."""
+        return random.Random(f"{self.seed}|{tag}")
+
+    def approx(self, exc, subject: str, key: str, what: str, pvec=None):
+        """The implementation's explicit matrix is not rational at a lattice point: log the
+        residuals of the laws evaluated in floating point (units 1e-12) for Trace_Lorentz!TApprox."""
+        self.n_irrational = getattr(self, "n_irrational", 0) + 1
+        seen = self._approx_seen = getattr(self, "_approx_seen", {})
+        if seen.get(subject, 0) >= 4:
+            return
+        seen[subject] = seen.get(subject, 0) + 1
+        m = exc.args[0] if exc.args else None
+        r, finite = [0], 0
+        try:
+            L = np.array(sp.Matrix(m).evalf(30), dtype=complex)
+            if L.shape == (4, 4) and np.all(np.isfinite(L)) and np.max(np.abs(L.imag)) == 0:
+                L = L.real
+                eta = np.diag([1.0, -1, -1, -1])
+                res = [np.max(np.abs(L.T @ eta @ L - eta)), abs(np.linalg.det(L) - 1.0), max(0.0, 1.0 - L[0, 0])]
+                if pvec is not None:
+                    pf = np.array([float(c) for c in pvec])
+                    m2 = pf[0] ** 2 - pf[1] ** 2 - pf[2] ** 2 - pf[3] ** 2
+                    if m2 > 0:
+                        res.append(np.max(np.abs(L @ pf - np.array([math.sqrt(m2), 0, 0, 0]))) / pf[0])
+                scale = max(1.0, float(np.max(np.abs(L))) ** 2)
+                r = [min(int(math.ceil(x / scale * 1e12)), 10**9) for x in res]
+                finite = 1
+        except Exception:  # noqa: BLE001  (not even numerically evaluable: finite = 0 is the observation)
+            pass
+        self.rec.add({"k": "approx", "r": r, "finite": finite}, kind="approx", subject=subject, key=key,
+                     input=f"{what}: entries not rational on the lattice, e.g. {str(m)[:200]}")
 
     # ---- exact implementation matrices (memoised per lattice point) ----------------------
     def mat(self, expr, **env):
@@ -210,12 +261,13 @@ class Gen:
     # ---- chains -----------------------------------------------------------------------------
     def chains(self, reps: int):
         kinds = ["BoostZ", "RotY", "RotZ", "Boost", "ToRest", "Negate"]
-        rng, rec = self.rng, self.rec
+        rec = self.rec
         eta = self.I.exact_mat(self.e_eta, {self.I.p: (1, 0, 0, 0)})
         seqs = [s for n in (1, 2, 3) for s in itertools.product(kinds, repeat=n)]
         made = 0
         for seq in seqs:
             for rep in range(reps):
+                rng = self.rng_for(f"chain:{seq}:{rep}")
                 for attempt in range(6):
                     small = len(seq) == 3 or attempt >= 3
                     betas, angles, moms = (self.betas_s, self.angles_s, self.moms_s) if small else (self.betas, self.angles, self.moms)
@@ -235,7 +287,9 @@ class Gen:
                         cid = cid or rid
                         rec.meta[rid]["chain"] = cid
                     made += 1
-                    self.chk.nontrivial(key)
+                    # non-trivial: at least one step that is not a signed permutation of the axes
+                    if any(a in ("BoostZ", "Boost", "ToRest") or (a in ("RotY", "RotZ") and p_[2] > 1) for a, p_ in zip(seq, pars)):
+                        self.chk.nontrivial(key)
                     break
         return made
 
@@ -260,9 +314,22 @@ class Gen:
                     tp = [tp[0]] + [lx.t_neg(c) for c in tp[1:]]
                     tp0 = [tp0[0]] + [lx.t_neg(c) for c in tp0[1:]]
                 else:
-                    if a == "ToRest" and all(c == 0 for c in pv[1:]):
+                    # ToRest is enabled in the specification iff ITS momentum moves (tp mirrors the specification's p)
+                    if a == "ToRest" and all(c[0] == 0 for c in tp[1:]):
                         return None
-                    L, subject = self.L_impl(a, par, pv)
+                    try:
+                        L, subject = self.L_impl(a, par, pv)
+                    except lx.AtRest:
+                        break       # the implementation's momentum is at rest where the specification's is not: upstream defect
+                    except lx.NotRational as e:
+                        # irrational on the lattice: adjudicated numerically; the chain ends before this step.  Later steps
+                        # act on a momentum produced by other implementation matrices, so only the first step is attributed.
+                        if len(out) > 1:
+                            self.truncated_chains += 1
+                            break
+                        self.approx(e, {"BoostZ": "BoostZMatrix", "RotY": "RotationYMatrix", "RotZ": "RotationZMatrix"}.get(a, "BoostMatrix")
+                                    + ".as_explicit", key, f"{a}{tuple(par)} at p = {pv}", pvec=(pv if a == "ToRest" else list(_scaled(par)) if a == "Boost" else None))
+                        break
                     tref = self.ref_step(a, par, mass, tp)
                     pv = list(L * sp.Matrix(pv))
                     acc = L * acc
@@ -280,13 +347,13 @@ class Gen:
                 ))
         except lx.Overflow32:
             return None
-        return out
+        return out if len(out) > 1 else None
 
     # ---- law records -------------------------------------------------------------------------
     def inverses(self, n: int):
         I, rec = self.I, self.rec
         pool = list(self.moms)
-        self.rng.shuffle(pool)
+        self.rng_for("inv").shuffle(pool)
         # every axis-aligned direction with both signs is always included
         axis = [q for q in self.moms if sum(1 for c in q[2:] if c != 0) == 1]
         made = 0
@@ -303,6 +370,9 @@ class Gen:
                 lx.t_ref_boost((q[0], 1), [(q[1], 1)] + [(-c, 1) for c in q[2:]])
             except lx.Overflow32:
                 rec.skipped32 += 1
+                continue
+            except lx.NotRational as e:
+                self.approx(e, "BoostMatrix.as_explicit", key, f"B(+-p), p = {q[1:]}", pvec=None)
                 continue
             rec.add({"k": "inv", "q": list(q), "m1": lx.mat_rec(m1), "m2": lx.mat_rec(m2), "nq": lx.vec_rec(nq)},
                     kind="inv", subject="BoostMatrix(NegativeMomentum).as_explicit", key=key, input=f"p = {q[1:]} (mass {q[0]})")
@@ -327,6 +397,9 @@ class Gen:
                 except lx.Overflow32:
                     rec.skipped32 += 1
                     continue
+                except lx.NotRational as e:
+                    self.approx(e, "BoostZMatrix.as_explicit~BoostMatrix.as_explicit", key, f"beta = {beta}, scale {scale}")
+                    continue
                 rec.add({"k": "zag", "b": list(b), "scale": lx.rat(scale), "m1": lx.mat_rec(m1), "m2": lx.mat_rec(m2)},
                         kind="zag", subject="BoostZMatrix.as_explicit~BoostMatrix.as_explicit", key=key,
                         input=f"beta = {beta}, p = {scale}*(gamma,0,0,gamma*beta)")
@@ -335,9 +408,9 @@ class Gen:
         return made
 
     def rotations(self, n: int):
-        rec, rng = self.rec, self.rng
+        rec = self.rec
         pairs = [(a, b) for a in self.angles for b in self.angles if a[2] * b[2] <= 65 * 29]
-        rng.shuffle(pairs)
+        self.rng_for("rot").shuffle(pairs)
         made = 0
         for t, expr in (("RotY", self.e_ry), ("RotZ", self.e_rz)):
             for a, b in pairs[:n]:
@@ -346,11 +419,14 @@ class Gen:
                     continue
                 ca, cb = _cs(a), _cs(b)
                 ab = (ca[0] * cb[0] - ca[1] * cb[1], ca[1] * cb[0] + ca[0] * cb[1])
-                ma, mb, mab = self.mat(expr, a1=ca), self.mat(expr, a1=cb), self.mat(expr, a1=ab)
                 try:
+                    ma, mb, mab = self.mat(expr, a1=ca), self.mat(expr, a1=cb), self.mat(expr, a1=ab)
                     lx.t_mmul(lx.tmat(ma), lx.tmat(mb)), lx.t_mmul(lx.tmat(mb), lx.tmat(ma)), lx.t_eta_orth(lx.tmat(mab))
                 except lx.Overflow32:
                     rec.skipped32 += 1
+                    continue
+                except lx.NotRational as e:
+                    self.approx(e, ("RotationYMatrix" if t == "RotY" else "RotationZMatrix") + ".as_explicit", key, f"(cos,sin) = {ca}")
                     continue
                 rec.add({"k": "rot", "t": t, "a": list(a), "b": list(b), "ab": [lx.rat(ab[0]), lx.rat(ab[1])],
                          "ma": lx.mat_rec(ma), "mb": lx.mat_rec(mb), "mab": lx.mat_rec(mab)},
@@ -368,16 +444,29 @@ class Gen:
         cases += [("RotY", self.e_ry, "RotationYMatrix", {"a1": _cs(a)}, a) for a in self.angles]
         cases += [("RotZ", self.e_rz, "RotationZMatrix", {"a1": _cs(a)}, a) for a in self.angles]
         moms = list(self.moms)
-        self.rng.shuffle(moms)
+        self.rng_for("args").shuffle(moms)
         cases += [("Boost", self.e_boost, "BoostMatrix", {"p": _scaled(q)}, q) for q in moms[:n_mom]]
         for t, expr, cls, env, par in cases:
             key = f"args:{t}:{par}"
             if not self.want(key):
                 continue
-            m = self.mat(expr, **env)
-            vals = I.exact_args(expr, {getattr(I, k): v for k, v in env.items()})
-            rec.add({"k": "args", "t": t, "m": lx.mat_rec(m), "vals": [lx.rat(v) for v in vals]},
-                    kind="args", subject=f"{cls}.evaluate", key=key, input=f"{t}{tuple(par)}")
+            try:
+                m = self.mat(expr, **env)
+                vals = I.exact_args(expr, {getattr(I, k): v for k, v in env.items()})
+                recd = {"k": "args", "t": t, "m": lx.mat_rec(m), "vals": [lx.rat(v) for v in vals]}
+                if t == "BoostZ":
+                    lx.t_mul(lx.tq(vals[1]), lx.tq(vals[0])), lx.t_mul(lx.t_mul(lx.tq(vals[1]), lx.tq(vals[1])), lx.t_sub((1, 1), lx.t_mul(lx.tq(vals[0]), lx.tq(vals[0]))))
+            except lx.Overflow32:
+                rec.skipped32 += 1
+                continue
+            except lx.NotRational as e:
+                if isinstance(e.args[0], sp.MatrixBase):
+                    self.approx(e, f"{cls}.as_explicit", key, f"{t}{tuple(par)}", pvec=list(env["p"]) if t == "Boost" else None)
+                else:
+                    # evaluate() arguments irrational where as_explicit() is rational: the numeric comparison decides
+                    self.n_irrational_args = getattr(self, "n_irrational_args", 0) + 1
+                continue
+            rec.add(recd, kind="args", subject=f"{cls}.evaluate", key=key, input=f"{t}{tuple(par)}")
             made += 1
         return made
 
@@ -412,8 +501,7 @@ class Gen:
             ("BoostMatrix(ArrayMultiplication(B(q),p))", lz.BoostMatrix(AM(Bq, I.p))),
         ]
 
-    def _rows(self, n: int, small: bool):
-        rng = self.rng
+    def _rows(self, n: int, small: bool, rng: random.Random):
         betas, angles = (self.betas_s, self.angles_s) if small else (self.betas, self.angles)
         moms = self.moms_s if small else self.moms
         rows = []
@@ -450,17 +538,17 @@ class Gen:
                     f = sp.lambdify([I.p, I.q, I.b, I.a1, I.a2], unfolded, cse=cse)
                 except Exception as e:  # noqa: BLE001  (code generation itself failed)
                     rec.add({"k": "num", "ms": [lx.ID_REC], "hasv": 0, "v": [], "out": [], "raised": 1, "finite": 1, "pyok": 0,
-                             "exc": f"lambdify: {type(e).__name__}"}, input="lambdify", **meta)
+                             "exc": "lambdify " + _exc_text(e)}, input="lambdify", exc_type=type(e).__name__, **meta)
                     continue
-                for _ in range(rounds):
+                for rnd in range(rounds):
                     for n in batches:
-                        made += self._numeric_batch(f, expr, name, cse, n, n_factors, meta)
+                        made += self._numeric_batch(f, expr, name, cse, n, n_factors, meta, self.rng_for(f"{key}:{rnd}:{n}"))
         return made
 
-    def _numeric_batch(self, f, expr, name, cse, n, n_factors, meta) -> int:
+    def _numeric_batch(self, f, expr, name, cse, n, n_factors, meta, rng) -> int:
         I, rec, chk = self.I, self.rec, self.chk
         rows = []
-        for row in self._rows(4 * n, small=n_factors >= 3):
+        for row in self._rows(8 * n, n_factors >= 3, rng):
             if len(rows) == n:
                 break
             env = {I.p: _scaled(row["q1"], row["s1"]), I.q: _scaled(row["q2"]), I.b: R(row["b"][0], row["b"][2]),
@@ -480,8 +568,19 @@ class Gen:
                     flat = list(e)
                 if not all(lx.dec_fits(x) for x in flat):
                     raise lx.Overflow32(0)
+                # well-conditioned points only: 1 - beta^2 loses eps*gamma^2, so factors with gamma > GAMMA_MAX are left
+                # to the sampled large-beta*gamma family, whose bound scales with the conditioning
+                if max(abs(F(*x)) for t in tms for r_ in t for x in r_) > GAMMA_MAX:
+                    self.skipped_ill += 1
+                    continue
             except lx.Overflow32:
                 rec.skipped32 += 1
+                continue
+            except lx.NotRational as e:
+                self.approx(e, f"{name}:as_explicit", meta["key"], f"factor of {name} at {row}")
+                continue
+            except lx.AtRest:
+                self.skipped_rest += 1
                 continue
             rows.append((row, env, ms, v, [F(*x) for x in flat]))
         if len(rows) < n:
@@ -499,7 +598,7 @@ class Gen:
                 raise ValueError(f"shape {out.shape}, expected {want_shape}")
         except Exception as e:  # noqa: BLE001  (the generated code raised: an observation, judged by the law)
             rec.add({"k": "num", "ms": [lx.ID_REC], "hasv": 0, "v": [], "out": [], "raised": 1, "finite": 1, "pyok": 0,
-                     "exc": f"{type(e).__name__}: {str(e)[:80]}"}, input=f"batch {n}", **meta)
+                     "exc": _exc_text(e)}, input=f"batch {n}: {type(e).__name__}: {str(e)[:200]}", exc_type=type(e).__name__, **meta)
             return 1
         made = 0
         for i, (row, env, ms, v, flat) in enumerate(rows):
@@ -512,24 +611,33 @@ class Gen:
                 ovals = [float(x) for x in o.reshape(-1)]
                 qs = [lx.quantise(x) for x in ovals]
                 r["out"] = qs if v is not None else [qs[4 * k: 4 * k + 4] for k in range(4)]
-                r["pyok"] = 1 if all(lx.close_py(x, e, tol) for x, e in zip(ovals, flat)) else 0
+                worst = max(lx.diff_units(x, e) for x, e in zip(ovals, flat))
+                r["pyok"] = 1 if worst <= tol else 0
+                # measured margin (exact, before the floor quantisation): largest |x - e| in units of the tolerance
+                self.worst_ratio = max(self.worst_ratio, max(float(abs(F(x) - e)) for x, e in zip(ovals, flat)) * 1e12 / tol)
             else:
                 r["out"], r["pyok"] = [], 0
             inp = {k: str(val) for k, val in row.items()}
             rec.add(r, input=f"batch {n} row {i}: {inp}", **meta)
-            chk.nontrivial(("num", meta["key"], tuple(sorted(inp.items()))))
+            if name.startswith("NegativeMomentum") or any(e.q != 1 for m_ in ms for e in m_):
+                chk.nontrivial(("num", meta["key"], tuple(sorted(inp.items()))))
             made += 1
         return made
 
     # ---- float-only samples at large beta*gamma ------------------------------------------------
     def sampled(self, n_dirs: int):
-        I, rec, rng = self.I, self.rec, self.rng
+        I, rec, rng = self.I, self.rec, self.rng_for("samp")
         if self.only is not None and not self.only.startswith("samp:"):
             return 0
         lz, ae = I.lz, I.ae
-        fB = sp.lambdify([I.p], self.e_boost.doit(), cse=True)
-        fBn = sp.lambdify([I.p], self.e_boost_neg.doit(), cse=True)
-        fBp = sp.lambdify([I.p], ae.ArrayMultiplication(self.e_boost, I.p).doit(), cse=True)
+        try:
+            fB = sp.lambdify([I.p], self.e_boost.doit(), cse=True)
+            fBn = sp.lambdify([I.p], self.e_boost_neg.doit(), cse=True)
+            fBp = sp.lambdify([I.p], ae.ArrayMultiplication(self.e_boost, I.p).doit(), cse=True)
+        except Exception as e:  # noqa: BLE001  (code generation failed: an observation)
+            rec.add({"k": "samp", "r": [], "finite": 0}, kind="samp", subject="BoostMatrix:numpy:large-beta-gamma",
+                    key="samp:lambdify", input=f"lambdify raised {type(e).__name__}: {str(e)[:120]}")
+            return 1
         eta = np.diag([1.0, -1, -1, -1])
         eps = 2.0**-52
         made = 0
@@ -542,8 +650,16 @@ class Gen:
                 dirs += [np.array([rng.gauss(0, 1) for _ in range(3)]) for _ in range(n_dirs)]
                 m = 0.7
                 P = np.array([[m * math.sqrt(1 + bg * bg)] + list(m * bg * d / np.linalg.norm(d)) for d in dirs])
-                with np.errstate(all="ignore"):
-                    L, Ln, Lp = fB(P), fBn(P), fBp(P)
+                try:
+                    with np.errstate(all="ignore"):
+                        L, Ln, Lp = (np.asarray(g(P), dtype=float) for g in (fB, fBn, fBp))
+                    if L.shape != (len(dirs), 4, 4) or Ln.shape != L.shape or Lp.shape != (len(dirs), 4):
+                        raise ValueError(f"shapes {L.shape} {Ln.shape} {Lp.shape}")
+                except Exception as e:  # noqa: BLE001  (the generated code raised: an observation)
+                    rec.add({"k": "samp", "r": [], "finite": 0}, kind="samp", subject="BoostMatrix:numpy:large-beta-gamma",
+                            key=f"samp:{bg}", input=f"beta*gamma = {bg:g}: generated code raised {type(e).__name__}: {str(e)[:120]}")
+                    made += 1
+                    continue
                 for i in range(len(dirs)):
                     g2 = 1 + bg * bg
                     unit = eps * g2
@@ -576,20 +692,26 @@ def judge(chk, rec: Recorder, tvs: list) -> dict:
                 raise Machinery(f"Trace_Lorentz: record built wrongly by the harness: {p[1:4]} :: {rec.meta.get(p[2])}")
         for clause, rid, info in tv.rejects:
             by_id.setdefault(rid, []).append((clause, info))
-    prim_bad_chains = set()
+    first_bad: dict = {}          # chain id -> first record of the chain with a step-level rejection
     law_ids = set()
-    for rid, lst in by_id.items():
+    for rid, lst in sorted(by_id.items()):
         for clause, info in lst:
             chain_level = clause in CHAIN_CLAUSES or (isinstance(info, tuple) and info and info[0] == "chain")
             if not chain_level:
-                prim_bad_chains.add(rec.meta[rid].get("chain"))
+                cid = rec.meta[rid].get("chain")
+                if cid is not None:
+                    first_bad.setdefault(cid, rid)
                 if clause in LAW_CLAUSES:
                     law_ids.add(rid)
+    prim_bad_chains = set(first_bad)
     n_viol = n_drift = 0
+    drifted: set = set()
     for rid, lst in sorted(by_id.items()):
         meta = rec.meta[rid]
         for clause, info in lst:
             chain_level = clause in CHAIN_CLAUSES or (isinstance(info, tuple) and info and info[0] == "chain")
+            if meta.get("chain") is not None and first_bad.get(meta["chain"], rid) < rid:
+                continue        # downstream of a step already rejected in this chain: a consequence, not a finding
             if chain_level:
                 if meta.get("chain") not in prim_bad_chains:
                     raise Machinery(f"chain-level clause {clause} rejected although every step matrix was accepted: "
@@ -599,19 +721,32 @@ def judge(chk, rec: Recorder, tvs: list) -> dict:
                 cl = "NumericAgrees" if clause == "NumericAgreesPy" else clause
                 subject = meta["subject"]
                 if clause == "NumericCodeRuns":
-                    exc = info if isinstance(info, str) else str(info)
-                    sig = f"codegen-raises:{subject.split(':numpy:')[0]}:{subject.split(':')[-1]}:{exc.split(':')[0].replace('lambdify ', '')}"
+                    fam = subject.split(":numpy:")[0]
+                    fam = "BoostMatrix" if fam == "BoostMatrix(p)" else fam
+                    sig = f"codegen-raises:{fam}:{subject.split(':')[-1]}:{meta.get('exc_type', 'exception')}"
+                elif clause == "NumericAgreesPy" and any(c == "NumericCodeRuns" for c, _ in lst):
+                    continue
                 else:
                     sig = f"{cl}:{subject}"
                 chk.violation(sig, f"{clause} fails for {subject} at {meta.get('input')}; TLC info: {str(info)[:700]}",
-                              {"key": meta["key"], "record": rec.records[rid - 1]})
+                              {"key": meta["key"], "seed": chk.seed, "tier": chk.tier, "record": rec.records[rid - 1]})
                 n_viol += 1
             elif clause == "MatchesReference":
                 if rid in law_ids:
                     continue
-                chk.spec_drift(f"{meta['subject']} differs from the reference transformation of Lorentz.tla although every law "
-                               f"of the property holds for it (e.g. {meta.get('input')}): a convention change, not a violation")
                 n_drift += 1
+                if (clause, meta["subject"]) not in drifted:
+                    drifted.add((clause, meta["subject"]))
+                    chk.spec_drift(f"{meta['subject']} differs from the reference transformation of Lorentz.tla although every law "
+                                   f"of the property holds for it (e.g. {meta.get('input')}): a convention change, not a violation")
+            elif clause == "EvaluateAgreesWithExplicit":
+                # implementation-shaped: which argument of evaluate() the printer puts where.  The property clause
+                # ("generated code agrees with the explicit matrix") is decided by the numeric records.
+                n_drift += 1
+                if (clause, meta["subject"]) not in drifted:
+                    drifted.add((clause, meta["subject"]))
+                    chk.spec_drift(f"{meta['subject']}: the arguments handed to the numpy printer are not the entries of as_explicit() at the "
+                                   f"places Trace_Lorentz!ArgsOK expects (e.g. {meta.get('input')}); the numeric comparison decides the clause")
             else:
                 raise Machinery(f"unknown clause {clause} from Trace_Lorentz")
     return {"violating_records": n_viol, "drift_records": n_drift}
@@ -653,6 +788,10 @@ def run(chk, replay=None):
         "BoostMatrix at |p| = 0 (0/0 in the implementation) is excluded as a removable singularity",
     )
     only = replay["case"]["key"] if replay and replay.get("case") else None
+    r_seed = replay["case"].get("seed") if only else None
+    r_tier = replay["case"].get("tier") if only else None
+    if only:
+        quick = (r_tier or tier) == "quick"
 
     # 1. the specification itself: exhaustive TLC (in the background while the implementation is driven)
     pool = ThreadPoolExecutor(max_workers=2)
@@ -668,16 +807,18 @@ def run(chk, replay=None):
     # 2. the implementation on the lattices
     t0 = time.time()
     rec = Recorder()
-    gen = Gen(chk, rec, only)
+    gen = Gen(chk, rec, only, seed=r_seed, tier=r_tier)
     counts = {}
-    counts["chains"] = gen.chains(1 if quick else 5) if (only is None or only.startswith("chain:")) else 0
-    counts["inv"] = gen.inverses(60 if quick else 600)
+    counts["chains"] = gen.chains(1 if quick else 12) if (only is None or only.startswith("chain:")) else 0
+    counts["inv"] = gen.inverses(60 if quick else 100000)
     counts["zag"] = gen.zagree()
-    counts["rot"] = gen.rotations(120 if quick else 1200)
-    counts["args"] = gen.evaluate_args(40 if quick else 300)
+    counts["rot"] = gen.rotations(120 if quick else 3000)
+    counts["args"] = gen.evaluate_args(40 if quick else 600)
     n_exact = len(rec.records)
-    counts["num"] = gen.numeric(1 if quick else 4)
-    counts["samp"] = gen.sampled(3 if quick else 12)
+    counts["num"] = gen.numeric(1 if quick else 10)
+    counts["samp"] = gen.sampled(3 if quick else 25)
+    counts["approx_irrational_on_lattice"] = sum(1 for r in rec.records if r["k"] == "approx")
+    counts["irrational_evaluations"] = getattr(gen, "n_irrational", 0) + getattr(gen, "n_irrational_args", 0)
     gen_s = time.time() - t0
     if not rec.records:
         raise Machinery(f"no record generated (replay key {only!r} not reproducible)")
@@ -693,13 +834,18 @@ def run(chk, replay=None):
     n_traces = counts["chains"] + sum(counts[k] for k in ("inv", "zag", "rot", "args", "num", "samp"))
     chk.cov["traces_validated_against_impl"] += n_traces
     chk.part("records", **counts, exact_records=n_exact, total=len(rec.records), skipped_not_32bit=rec.skipped32,
+             skipped_ill_conditioned=gen.skipped_ill, skipped_momentum_at_rest=gen.skipped_rest, truncated_chains=gen.truncated_chains, numeric_worst_distance_over_tolerance=round(gen.worst_ratio, 4),
              generation_s=round(gen_s, 1), laws_evaluated=stats)
-    if only is None:
+    logged: dict[str, int] = {}
+    for r in rec.records:
+        logged[r["k"]] = logged.get(r["k"], 0) + 1
+    for k, v in logged.items():
+        if stats.get(k, 0) != v:
+            raise Machinery(f"TLC consumed {stats.get(k, 0)} records of kind {k}, the driver logged {v}")
+    if only is None and counts["irrational_evaluations"] == 0:
         for k in ("step", "inv", "zag", "rot", "args", "num", "samp", "proper", "rest", "numentries"):
             if stats.get(k, 0) == 0:
                 raise Machinery(f"vacuous trace validation: law counter {k} is 0 ({stats})")
-        if stats.get("start", 0) != counts["chains"]:
-            raise Machinery(f"TLC consumed {stats.get('start')} chains, the driver logged {counts['chains']}")
     verdict = judge(chk, rec, tvs)
     chk.part("verdict", **verdict)
 
@@ -726,10 +872,11 @@ def run(chk, replay=None):
         if dead:
             raise Machinery(f"vacuous model check {name}: actions never taken {dead}")
     if not quick and only is None:
-        res = model_check("C", 2, 6)
-        chk.add_tlc("model_C_depth2", res)
-        if not res.ok:
-            raise Machinery(f"Lorentz.tla violates {res.violated} on lattice C: specification error")
+        for name, lat in (("model_C_depth2", "C"), ("model_B_depth2", "B")):
+            res = model_check(lat, 2, 6)
+            chk.add_tlc(name, res)
+            if not res.ok:
+                raise Machinery(f"Lorentz.tla violates {res.violated} on lattice {lat}: specification error")
     pool.shutdown()
 
     # 5. sensitivity of the model and binding of the trace specification
@@ -739,7 +886,11 @@ def run(chk, replay=None):
             r = model_check("Q", 2, 2, dev=dev)
             if r.ok:
                 raise Machinery(f"model is insensitive: deviation {dev} of the reference violates no invariant or law")
-            chk.part(f"model_sensitivity_{dev.strip('{}').strip(chr(34))}", violated=sorted(set(r.violated)), states=r.distinct)
+            r2 = model_check("Q", 2, 2, dev=dev, invariants=False)
+            if r2.ok:
+                raise Machinery(f"laws are insensitive: deviation {dev} of the reference violates no action property")
+            chk.part(f"model_sensitivity_{dev.strip('{}').strip(chr(34))}", invariant_violated=sorted(set(r.violated)),
+                     law_violated=sorted(set(r2.violated)), states=r.distinct)
     if not quick and only is None:
         binding_demo(chk, rec)
 
@@ -748,8 +899,9 @@ def run(chk, replay=None):
         "32-bit arithmetic); implementation: every kind-sequence of <= 3 of {BoostZ,RotY,RotZ,Boost,ToRest,Negate} with seeded lattice "
         "parameters, B(p)/B(-p) on oriented integer-mass momenta (all axis directions and signs always), BoostZ vs Boost along z for "
         "every beta x 4 scales, R(a)R(b)=R(a+b) on sampled pairs of circle points, evaluate() arguments, 17 numeric expression "
-        "families x cse on/off x batch 1/2/17, float-only samples beta*gamma in 1..1e4; distinct non-trivial = distinct (family, "
-        "lattice parameters) with at least one non-axis / non-identity parameter, as registered by the driver"
+        "families x cse on/off x batch 1/2/17 (factors with entries <= 8: well-conditioned), float-only samples beta*gamma in 1..1e4; "
+        "distinct non-trivial = distinct (family, lattice parameters) in which at least one matrix is not a signed permutation of the "
+        "axes (a boost, or a rotation by a non-axis angle), counted by the driver"
     )
     chk.cov["exhaustive"] = False
 
